@@ -401,6 +401,11 @@ class RaggedArray(IndexableArray, np.lib.mixins.NDArrayOperatorsMixin):
                     new_dtype = np.uint64
                 weights = weights.astype(new_dtype)
 
+            if weights.dtype.kind == "c" or weights.dtype.itemsize > 8:
+                # np.bincount adds its weights as doubles: complex and extended-precision elements are added in their own type
+                result = np.zeros(np.max(self._shape.lengths), dtype=new_dtype)
+                np.add.at(result, column_indexes, weights)
+                return result
             return np.bincount(column_indexes, weights=weights, minlength=np.max(self.lengths))
             result = np.zeros(np.max(self._shape.lengths), dtype=new_dtype)
             np.add.at(result, column_indexes, self.ravel())
